@@ -475,6 +475,23 @@ pub mod shim {
         ensures r == (224 <= ip4_octets(*a)[0] <= 239);
     pub assume_specification [Ipv4Addr::is_broadcast] (a: &Ipv4Addr) -> (r: bool)
         ensures r == (ip4_octets(*a) == seq![255u8, 255u8, 255u8, 255u8]);
+    // address predicates the unchanged tree does not call (documented std behaviour), so that an edit using them is decided
+    pub assume_specification [Ipv4Addr::is_unspecified] (a: &Ipv4Addr) -> (r: bool)
+        ensures r == (ip4_octets(*a) == seq![0u8, 0u8, 0u8, 0u8]);
+    pub assume_specification [Ipv4Addr::is_loopback] (a: &Ipv4Addr) -> (r: bool)
+        ensures r == (ip4_octets(*a)[0] == 127);
+    pub assume_specification [Ipv4Addr::is_private] (a: &Ipv4Addr) -> (r: bool)
+        ensures r == (ip4_octets(*a)[0] == 10 || (ip4_octets(*a)[0] == 172 && 16 <= ip4_octets(*a)[1] <= 31) || (ip4_octets(*a)[0] == 192 && ip4_octets(*a)[1] == 168));
+    pub assume_specification [Ipv4Addr::is_link_local] (a: &Ipv4Addr) -> (r: bool)
+        ensures r == (ip4_octets(*a)[0] == 169 && ip4_octets(*a)[1] == 254);
+    pub assume_specification [Ipv6Addr::is_unspecified] (a: &Ipv6Addr) -> (r: bool)
+        ensures r == (forall|i: int| 0 <= i < 16 ==> ip6_octets(*a)[i] == 0);
+    pub assume_specification [Ipv6Addr::is_loopback] (a: &Ipv6Addr) -> (r: bool)
+        ensures r == ((forall|i: int| 0 <= i < 15 ==> ip6_octets(*a)[i] == 0) && ip6_octets(*a)[15] == 1);
+    pub assume_specification [IpAddr::is_unspecified] (a: &IpAddr) -> (r: bool)
+        ensures r == (match *a { IpAddr::V4(x) => ip4_octets(x) == seq![0u8, 0u8, 0u8, 0u8], IpAddr::V6(x) => forall|i: int| 0 <= i < 16 ==> ip6_octets(x)[i] == 0 });
+    pub assume_specification [IpAddr::is_multicast] (a: &IpAddr) -> (r: bool)
+        ensures r == (match *a { IpAddr::V4(x) => 224 <= ip4_octets(x)[0] <= 239, IpAddr::V6(x) => ip6_octets(x)[0] == 0xff });
     /// std `Hash`/`Eq` of IpAddr are lawful (trusted).
     #[verifier::external_body]
     pub broadcast proof fn axiom_ipaddr_key_model()
